@@ -282,7 +282,9 @@ Definition st_write (s : state) (w : nat) : option state :=
   | WWrite c =>
     let cn := conns s c in let i := io cn in let v := srv cn in
     let v' := mkSrv (s_unans v ++ [w_exch k]) (s_mid v) (s_inbox v) (s_aborted v)
-                    (Nat.max (s_maxout v) (S (owed v))) (s_dirtyq v || is_some (s_mid v)) in
+                    (* ghost observations of the server: it sees nothing on a connection it aborted *)
+                    (if s_aborted v then s_maxout v else Nat.max (s_maxout v) (S (owed v)))
+                    (s_dirtyq v || (negb (s_aborted v) && is_some (s_mid v))) in
     Some (set_work (set_conn s c (mkConn (fl cn) (mkIo (S (i_written i)) (i_consumed i) (i_partial i) (i_err i))
                                          v' (c_owner cn)))
                    w (set_pc k (WRead c)))
